@@ -1,5 +1,5 @@
 //@PROBE file=src/trackers/visual_sort/batch_api.rs test=verif_probe_tracker_kinds clauses=tracker_kinds
-//@BOUND the four tracker kinds (Sort, BatchSort, VisualSort, BatchVisualSort) x {IoU(0.3), Mahalanobis} x store shards 1..=2 x voting workers 1..=2, history length 4 != max idle 2; one 12-step script over two scenes occupying the SAME image region (objects that disappear for 1, 3 and 4 steps, negative / large angles, confidence 0.6, an object that jumps 150 px keeping its appearance, own-area thresholds 0.4 for the visual kinds): (1) the per-call record contract, (2) the scene-1 trace of the two-scene run equals the run of scene 1 alone up to renaming of ids, (3) each batch kind equals its simple kind per scene up to renaming, (4) wasted()/idle after the last step
+//@BOUND the four tracker kinds (Sort, BatchSort, VisualSort, BatchVisualSort) x {IoU(0.3), Mahalanobis} x store shards 1..=2 x voting workers 1..=2, history length 4 != max idle 2; one 12-step script over two scenes occupying the SAME image region (objects that disappear for 1, 3 and 4 steps, negative / large angles, confidence 0.6, an object that jumps 150 px keeping its appearance, a feature-less detection covering a third of another one; visual kinds with Euclidean(0.5) / Cosine(0.2) appearance metrics and own-area thresholds use=collect=0.4 / collect-only 0.8; per record also the number of collected features and the stored own-area share): (1) the per-call record contract, (2) the scene-1 trace of the two-scene run equals the run of scene 1 alone up to renaming of ids, (3) each batch kind equals its simple kind per scene up to renaming, (4) wasted()/idle after the last step
 #[cfg(test)]
 mod verif_probe_tracker_kinds {
     // Bounded stand-in for the tracker-level clauses of C01 / C03 / C04 over ALL tracker kinds (predict* drive store
@@ -11,6 +11,7 @@ mod verif_probe_tracker_kinds {
     use crate::trackers::sort::simple_api::Sort;
     use crate::trackers::sort::PositionalMetricType;
     use crate::trackers::sort::PositionalMetricType::{IoU, Mahalanobis};
+    use crate::trackers::sort::VotingType;
     use crate::trackers::tracker_api::TrackerAPI;
     use crate::trackers::visual_sort::simple_api::VisualSort;
     use crate::trackers::visual_sort::metric::VisualSortMetricType;
@@ -21,7 +22,7 @@ mod verif_probe_tracker_kinds {
     const IDLE: usize = 2;
 
     #[derive(Clone)]
-    struct Det { bbox: Universal2DBox, feat: Vec<f32>, cid: i64 }
+    struct Det { bbox: Universal2DBox, feat: Option<Vec<f32>>, cid: i64, obj: usize }
 
     fn present(scene: u64, obj: usize, step: usize) -> bool {
         match (scene, obj) {
@@ -29,39 +30,47 @@ mod verif_probe_tracker_kinds {
             (1, 1) => !(3..=5).contains(&step),        // three missing steps: expires (max idle 2), new track afterwards
             (1, 2) => step <= 2 || step >= 7,          // four missing steps: within the HISTORY length but beyond max idle
             (1, 3) => step >= 1,                       // jumps at step 6
+            (1, 4) => (2..=9).contains(&step),         // carries NO feature and covers about a third of (1, 0)
             (2, 0) => true,                            // same image region as (1, 0)
             (2, 1) => step % 3 != 1,                   // same image region as (1, 3) after its jump
             _ => false,
         }
     }
-    fn det(scene: u64, obj: usize, step: usize) -> Det {
+    fn det(scene: u64, obj: usize, step: usize, cosine: bool) -> Det {
         let s = step as f32;
         let (x, y, ang, asp, h) = match (scene, obj) {
             (1, 0) | (2, 0) => (100.0 + 2.0 * s, 100.0, Some(-0.3 + 0.01 * s), 0.5, 60.0),
             (1, 1) => (400.0 + s, 120.0 + s, None, 0.4, 80.0),
             (1, 2) => (700.0 - 1.5 * s, 90.0, Some(7.0), 1.2, 40.0),
             (1, 3) => (if step < 6 { 1000.0 + s } else { 1150.0 + s }, 300.0, Some(0.4), 0.6, 70.0),
+            (1, 4) => (120.0 + 2.0 * s, 100.0, Some(-0.3 + 0.01 * s), 0.5, 60.0),
             _ => (1150.0 + s, 300.0, Some(0.4), 0.6, 70.0), // (2, 1)
         };
-        let mut feat = vec![0.0f32; 8];
-        feat[(obj + 4 * (scene as usize - 1)) % 8] = 1.0; feat[7 - obj] += 0.05 * (step % 2) as f32;
-        Det { bbox: Universal2DBox::new_with_confidence(x, y, ang, asp, h, 0.6), feat, cid: (1000 * scene as i64 + 10 * obj as i64) * 100 + step as i64 }
+        // 16-dim appearance features. Euclidean runs: a unit vector per object plus a small wobble. Cosine runs: the same, but the
+        // jumping object (1, 3) shows a different view at every step: all its views have cosine similarity 0.6 with one another.
+        let mut feat = vec![0.0f32; 16];
+        if cosine && scene == 1 && obj == 3 { feat[15] = 0.6f32.sqrt(); feat[8 + step % 6] = 0.4f32.sqrt(); }
+        else { feat[(obj + 4 * (scene as usize - 1)) % 8] = 1.0; feat[7 - obj % 4] += 0.05 * (step % 2) as f32; }
+        let feat = if scene == 1 && obj == 4 { None } else { Some(feat) };
+        Det { bbox: Universal2DBox::new_with_confidence(x, y, ang, asp, h, 0.6), feat, cid: (1000 * scene as i64 + 10 * obj as i64) * 100 + step as i64, obj }
     }
 
     #[derive(Clone, Copy, Debug, PartialEq, Eq, Hash)]
     enum Kind { S, BS, V, BV }
     enum T { S(Sort), BS(BatchSort), V(VisualSort), BV(BatchVisualSort) }
-    fn vopts(method: PositionalMetricType) -> VisualSortOptions {
-        VisualSortOptions::default().max_idle_epochs(IDLE).kept_history_length(HIST).visual_metric(VisualSortMetricType::Euclidean(0.5)).positional_metric(method)
+    /// variant: bit 0 = cosine(0.2) instead of euclidean(0.5); bit 1 = only the COLLECT own-area threshold is set (0.8), not the use one
+    fn vopts(method: PositionalMetricType, variant: u8) -> VisualSortOptions {
+        let (u, c) = if variant & 2 == 0 { (0.4, 0.4) } else { (0.0, 0.8) };
+        VisualSortOptions::default().max_idle_epochs(IDLE).kept_history_length(HIST).visual_metric(if variant & 1 == 0 { VisualSortMetricType::Euclidean(0.5) } else { VisualSortMetricType::Cosine(0.2) }).positional_metric(method)
             .visual_minimal_track_length(2).visual_minimal_area(5.0).visual_minimal_quality_use(0.45).visual_minimal_quality_collect(0.5).visual_max_observations(3).visual_min_votes(1)
-            .visual_minimal_own_area_percentage_use(0.4).visual_minimal_own_area_percentage_collect(0.4)
+            .visual_minimal_own_area_percentage_use(u).visual_minimal_own_area_percentage_collect(c)
     }
-    fn make(kind: Kind, method: PositionalMetricType, shards: usize, voters: usize) -> T {
+    fn make(kind: Kind, method: PositionalMetricType, shards: usize, voters: usize, variant: u8) -> T {
         match kind {
             Kind::S => T::S(Sort::new(shards, HIST, IDLE, method, 0.05, None, 1.0 / 20.0, 1.0 / 160.0)),
             Kind::BS => T::BS(BatchSort::new(shards, voters, HIST, IDLE, method, 0.05, None, 1.0 / 20.0, 1.0 / 160.0)),
-            Kind::V => T::V(VisualSort::new(shards, &vopts(method))),
-            Kind::BV => T::BV(BatchVisualSort::new(shards, voters, &vopts(method))),
+            Kind::V => T::V(VisualSort::new(shards, &vopts(method, variant))),
+            Kind::BV => T::BV(BatchVisualSort::new(shards, voters, &vopts(method, variant))),
         }
     }
     impl T {
@@ -70,7 +79,7 @@ mod verif_probe_tracker_kinds {
             let mut out = HashMap::new();
             match self {
                 T::S(t) => for (s, d) in scenes { out.insert(*s, t.predict_with_scene(*s, &d.iter().map(|x| (x.bbox.clone(), Some(x.cid))).collect::<Vec<_>>())); },
-                T::V(t) => for (s, d) in scenes { out.insert(*s, t.predict_with_scene(*s, &d.iter().map(|x| VisualSortObservation::new(Some(&x.feat), Some(0.9), x.bbox.clone(), Some(x.cid))).collect::<Vec<_>>())); },
+                T::V(t) => for (s, d) in scenes { out.insert(*s, t.predict_with_scene(*s, &d.iter().map(|x| VisualSortObservation::new(x.feat.as_deref(), Some(0.9), x.bbox.clone(), Some(x.cid))).collect::<Vec<_>>())); },
                 T::BS(t) => {
                     let (mut req, res) = PredictionBatchRequest::<(Universal2DBox, Option<i64>)>::new();
                     for (s, d) in scenes { for x in d { req.add(*s, (x.bbox.clone(), Some(x.cid))); } }
@@ -79,12 +88,24 @@ mod verif_probe_tracker_kinds {
                 }
                 T::BV(t) => {
                     let (mut req, res) = PredictionBatchRequest::<VisualSortObservation>::new();
-                    for (s, d) in scenes { for x in d { req.add(*s, VisualSortObservation::new(Some(&x.feat), Some(0.9), x.bbox.clone(), Some(x.cid))); } }
+                    for (s, d) in scenes { for x in d { req.add(*s, VisualSortObservation::new(x.feat.as_deref(), Some(0.9), x.bbox.clone(), Some(x.cid))); } }
                     t.predict(req);
                     for _ in 0..res.batch_size() { let (s, r) = res.get(); out.insert(s, r); }
                 }
             }
             out
+        }
+        /// (number of appearance features the track reports as collected, own-area share stored with its newest observation)
+        fn gallery(&self, id: u64) -> (usize, u32) {
+            fn look<N: crate::track::notify::ChangeNotifier>(st: &crate::store::TrackStore<VisualAttributes, VisualMetric, VisualObservationAttributes, N>, id: u64) -> (usize, u32) {
+                let shard = st.get_store(id as usize);
+                match shard.get(&id) {
+                    None => (usize::MAX, 0),
+                    Some(tr) => (tr.get_attributes().visual_features_collected_count,
+                                 tr.get_observations(0).and_then(|o| o.first()).and_then(|o| o.attr().as_ref()).and_then(|a| *a.own_area_percentage_opt()).map(|x| (x * 1000.0).round() as u32).unwrap_or(u32::MAX)),
+                }
+            }
+            match self { T::V(t) => look(&t.get_main_store(), id), T::BV(t) => look(&t.get_main_store(), id), _ => (0, 0) }
         }
         fn idle(&mut self, s: u64) -> Vec<u64> { let mut v: Vec<u64> = match self { T::S(t) => t.idle_tracks_with_scene(s), T::BS(t) => t.idle_tracks_with_scene(s), T::V(t) => t.idle_tracks_with_scene(s), T::BV(t) => t.idle_tracks_with_scene(s) }.iter().map(|x| x.id).collect(); v.sort(); v }
         fn skip(&mut self, s: u64, n: usize) { match self { T::S(t) => t.skip_epochs_for_scene(s, n), T::BS(t) => t.skip_epochs_for_scene(s, n), T::V(t) => t.skip_epochs_for_scene(s, n), T::BV(t) => t.skip_epochs_for_scene(s, n) } }
@@ -92,18 +113,19 @@ mod verif_probe_tracker_kinds {
     }
 
     /// (track name by first appearance, epoch, length, observed box bits, predicted box bits) per record
-    type Rec = (usize, usize, usize, [u32; 5], [u32; 5]);
+    type Rec = (usize, usize, usize, [u32; 5], [u32; 5], (usize, u32));
     fn bits(b: &Universal2DBox) -> [u32; 5] { [b.xc.to_bits(), b.yc.to_bits(), b.angle.map(|a| a.to_bits()).unwrap_or(u32::MAX), b.aspect.to_bits(), b.height.to_bits()] }
 
     /// runs the script restricted to `scenes`; returns the trace of `watch` and the final (idle, wasted) of `watch` renamed
-    fn run(kind: Kind, method: PositionalMetricType, shards: usize, voters: usize, scenes: &[u64], watch: u64, failures: &mut Vec<String>) -> (Vec<Vec<Rec>>, Vec<usize>, Vec<usize>) {
-        let ctx = format!("PROBE input: tracker_kinds kind={:?} method={:?} shards={} voters={} scenes={:?}", kind, method, shards, voters, scenes);
-        let mut t = make(kind, method, shards, voters);
+    fn run(kind: Kind, method: PositionalMetricType, shards: usize, voters: usize, variant: u8, scenes: &[u64], watch: u64, failures: &mut Vec<String>) -> (Vec<Vec<Rec>>, Vec<usize>, Vec<usize>) {
+        let ctx = format!("PROBE input: tracker_kinds kind={:?} method={:?} shards={} voters={} visual variant={} scenes={:?}", kind, method, shards, voters, variant, scenes);
+        let mut t = make(kind, method, shards, voters, variant);
+        let mut jump_track: Option<usize> = None;
         let mut names: HashMap<u64, usize> = HashMap::new();
         let mut trace = vec![];
         let mut epochs: HashMap<u64, usize> = HashMap::new();
         for step in 0..12usize {
-            let batch: Vec<(u64, Vec<Det>)> = scenes.iter().map(|s| (*s, (0..4).filter(|o| present(*s, *o, step)).map(|o| det(*s, o, step)).collect::<Vec<_>>())).filter(|(_, d)| !d.is_empty()).collect();
+            let batch: Vec<(u64, Vec<Det>)> = scenes.iter().map(|s| (*s, (0..5).filter(|o| present(*s, *o, step)).map(|o| det(*s, o, step, variant & 1 == 1)).collect::<Vec<_>>())).filter(|(_, d)| !d.is_empty()).collect();
             let out = t.step(&batch);
             if out.len() != batch.len() { failures.push(format!("{} step={}: tracker_kinds.one_result_per_scene: {} results for {} scenes", ctx, step, out.len(), batch.len())); }
             for (s, dets) in batch.iter() {
@@ -122,7 +144,19 @@ mod verif_probe_tracker_kinds {
                     if *s != watch { continue; }
                     let n = names.len();
                     let name = *names.entry(r.id).or_insert(n);
-                    if *s == watch { row.push((name, r.epoch, r.length, bits(&r.observed_bbox), bits(&r.predicted_bbox))); }
+                    if *s == watch { row.push((name, r.epoch, r.length, bits(&r.observed_bbox), bits(&r.predicted_bbox), t.gallery(r.id))); }
+                    // ground truth for the object that jumps 150 px at step 6 keeping its appearance: the appearance trackers
+                    // re-identify it (same track, reported as a visual attachment), the positional trackers start a new track
+                    if *s == 1 && d.obj == 3 {
+                        if step == 5 { jump_track = Some(name); }
+                        if step == 6 {
+                            let visual = matches!(kind, Kind::V | Kind::BV);
+                            if visual && (Some(name) != jump_track || !matches!(r.voting_type, VotingType::Visual)) {
+                                failures.push(format!("{} step=6: tracker_kinds.appearance_reidentifies_the_jumped_object: got track {} (voting {:?}), expected track {:?} attached by Visual voting", ctx, name, r.voting_type, jump_track));
+                            }
+                            if !visual && Some(name) == jump_track { failures.push(format!("{} step=6: tracker_kinds.positional_tracker_does_not_bridge_the_jump: the detection 150 px away continued track {}", ctx, name)); }
+                        }
+                    }
                 }
                 if *s == watch { trace.push(row); }
             }
@@ -139,16 +173,18 @@ mod verif_probe_tracker_kinds {
         let mut failures: Vec<String> = vec![];
         let mut cases = 0u64;
         for method in [IoU(0.3), Mahalanobis] { for shards in 1usize..=2 {
+            for variant in 0u8..4 {
             let mut simple: HashMap<Kind, (Vec<Vec<Rec>>, Vec<usize>, Vec<usize>)> = HashMap::new();
             for (kind, voters) in [(Kind::S, 1usize), (Kind::V, 1), (Kind::BS, 1), (Kind::BS, 2), (Kind::BV, 1), (Kind::BV, 2)] {
+                if variant > 0 && matches!(kind, Kind::S | Kind::BS) { continue; }
                 cases += 1;
-                let both = run(kind, method, shards, voters, &[1, 2], 1, &mut failures);
-                let alone = run(kind, method, shards, voters, &[1], 1, &mut failures);
-                let ctx = format!("PROBE input: tracker_kinds kind={:?} method={:?} shards={} voters={}", kind, method, shards, voters);
+                let both = run(kind, method, shards, voters, variant, &[1, 2], 1, &mut failures);
+                let alone = run(kind, method, shards, voters, variant, &[1], 1, &mut failures);
+                let ctx = format!("PROBE input: tracker_kinds kind={:?} method={:?} shards={} voters={} visual variant={}", kind, method, shards, voters, variant);
                 if both != alone {
                     let k = (0..both.0.len().min(alone.0.len())).find(|k| both.0[*k] != alone.0[*k]);
-                    failures.push(format!("{}: tracker_kinds.scene_grouping_is_the_same_with_and_without_other_scenes: scene 1 is tracked differently when calls for scene 2 (same image region) are interleaved; first difference at its call #{:?}: {:?} vs alone {:?}; final idle {:?}/{:?} wasted {:?}/{:?}", ctx, k,
-                        k.map(|k| both.0[k].iter().map(|r| (r.0, r.1, r.2)).collect::<Vec<_>>()), k.map(|k| alone.0[k].iter().map(|r| (r.0, r.1, r.2)).collect::<Vec<_>>()), both.1, alone.1, both.2, alone.2));
+                    failures.push(format!("{}: tracker_kinds.scene_grouping_is_the_same_with_and_without_other_scenes: scene 1 is tracked differently when calls for scene 2 (same image region) are interleaved; first difference at its call #{:?}: (track, epoch, length, (features collected, own-area share x1000)) {:?} vs alone {:?}; final idle {:?}/{:?} wasted {:?}/{:?}", ctx, k,
+                        k.map(|k| both.0[k].iter().map(|r| (r.0, r.1, r.2, r.5)).collect::<Vec<_>>()), k.map(|k| alone.0[k].iter().map(|r| (r.0, r.1, r.2, r.5)).collect::<Vec<_>>()), both.1, alone.1, both.2, alone.2));
                 }
                 match kind {
                     Kind::S | Kind::V => { simple.insert(kind, alone); }
@@ -156,11 +192,12 @@ mod verif_probe_tracker_kinds {
                         let reference = &simple[&if kind == Kind::BS { Kind::S } else { Kind::V }];
                         if &alone != reference {
                             let k = (0..alone.0.len().min(reference.0.len())).find(|k| alone.0[*k] != reference.0[*k]);
-                            failures.push(format!("{}: tracker_kinds.batch_tracker_groups_like_the_simple_tracker: first difference at call #{:?}: batch {:?} vs simple {:?}; final idle {:?}/{:?} wasted {:?}/{:?}", ctx, k,
-                                k.map(|k| alone.0[k].iter().map(|r| (r.0, r.1, r.2)).collect::<Vec<_>>()), k.map(|k| reference.0[k].iter().map(|r| (r.0, r.1, r.2)).collect::<Vec<_>>()), alone.1, reference.1, alone.2, reference.2));
+                            failures.push(format!("{}: tracker_kinds.batch_tracker_groups_like_the_simple_tracker: first difference at call #{:?}: (track, epoch, length, (features collected, own-area share x1000)) batch {:?} vs simple {:?}; final idle {:?}/{:?} wasted {:?}/{:?}", ctx, k,
+                                k.map(|k| alone.0[k].iter().map(|r| (r.0, r.1, r.2, r.5)).collect::<Vec<_>>()), k.map(|k| reference.0[k].iter().map(|r| (r.0, r.1, r.2, r.5)).collect::<Vec<_>>()), alone.1, reference.1, alone.2, reference.2));
                         }
                     }
                 }
+            }
             }
         } }
         eprintln!("PROBE cases={} nontrivial={}", cases * 24, cases * 24);
